@@ -21,7 +21,9 @@ RULE = ('Hypothesis-drawn lists of trees (script-like, with a set-logic/set-info
         'and ids); untouched subtrees are the same objects; declarations right '
         'after the prefix iff something changed.  A RuleBasedStateMachine keeps a '
         'set of pending simplifications for the current input and applies them in '
-        'any order (real == model after every step).  Every call runs under a 2 s '
+        'any order (real == model after every step).  Pending identity-keyed simplifications '
+        'are also applied one after the other by freshly forked worker processes, each to '
+        'the result the previous worker sent back (as in a -j n run).  Every call runs under a 2 s '
         'CPU-time limit.  Non-trivial: replacement contains a key, or >= 2 keys, or '
         'deletion of a last child / top-level item / the root.')
 ASSUMPTIONS = [
@@ -450,10 +452,68 @@ def make_machine(dd, acc):
     return Pending
 
 
+def _worker_apply(args):
+    """runs in a freshly forked worker: apply one identity-keyed simplification"""
+    exprs, substs, fresh = args
+    dd = env.load()
+    try:
+        return dd.mutator_utils.apply_simp(exprs, dd.mutator_utils.Simplification(substs, fresh))
+    except Exception as e:  # noqa
+        return f'raises {type(e).__name__}: {e}'
+
+
+def run_workers_case(dd, case, acc):
+    """Pending simplifications across worker processes, as in a -j n run: all are computed
+    for one input in the parent; worker A (forked from the parent) applies the first one and
+    sends its result back; worker B (forked from the same parent, later) applies the next
+    one to A's result, and so on.  Oracle: the nested-list model applied to all paths."""
+    import multiprocessing
+    mp = multiprocessing.get_context('fork')
+    trees = case['trees']
+    base = [model.to_node(dd, t) for t in trees]
+    steps = []
+    mrepl = {}
+    for p, r in case['repl']:
+        p = tuple(p)
+        node = model.get_path(base, p)
+        steps.append({node.id: None if r is None else model.to_node(dd, r)})
+        mrepl[p] = model.DELETE if r is None else r
+    expected = model.subst_paths(trees, mrepl)
+    cur = base
+    for i, substs in enumerate(steps):
+        with mp.Pool(1) as pool:
+            res = pool.apply_async(_worker_apply, ((cur, substs, []), ))
+            try:
+                cur = res.get(timeout=60)
+            except multiprocessing.TimeoutError:
+                acc.violation('workers/hang', f'worker {i} did not answer within 60 s', case)
+                return False, ['ids-workers']
+        if isinstance(cur, str):
+            acc.violation('workers/' + cur.split(':')[0].replace(' ', '-'), f'worker {i}: {cur}', case)
+            return False, ['ids-workers']
+    got = model.to_plain(cur)
+    if got != expected:
+        acc.violation('workers/result-differs',
+                      f'{len(steps)} pending simplifications applied one after the other by freshly forked workers: '
+                      f'got {model.render_list(got)[:200]!r}, model {model.render_list(expected)[:200]!r}', case)
+    ids = [n.id for n in dd.nodes.dfs(cur)]
+    if len(ids) != len(set(ids)):
+        acc.violation('workers/duplicate-identity', 'the result holds one identity at several positions', case)
+    return len(steps) >= 2, ['ids-workers', f'workers-{min(len(steps), 3)}']
+
+
 def shard(ctx, acc):
     dd = env.load()
     guard.limit_memory(3)
     total = 16000 if ctx.quick else 400000
+
+    def wbody(case):
+        case = dict(case, kind='ids-workers')
+        nt, classes = run_workers_case(dd, case, acc)
+        acc.case(case, nontrivial=nt, classes=classes)
+
+    wstrat = id_case().filter(lambda c: len(c['repl']) >= 2)
+    runner.hyp_run(ctx, wstrat, wbody, ctx.share(1600 if ctx.quick else 40000), salt=23)
 
     def body(case):
         nt, classes = run_case(dd, case, acc)
@@ -479,6 +539,8 @@ def replay(case, acc, ctx):
     guard.limit_memory(3)
     if case.get('kind') == 'machine':
         replay_machine(dd, case['steps'], acc)
+    elif case.get('kind') == 'ids-workers':
+        run_workers_case(dd, case, acc)
     else:
         run_case(dd, case, acc)
 
